@@ -900,4 +900,81 @@ theorem C12_alloc_bounded_counterexample :
   refine ⟨by decide, by decide⟩
 
 
+/-! ## other readers -/
+
+/-- **Reader independence** (partial: known finding bytes-chunked-read).  Full statement wanted:
+    whatever legal `io.Reader` delivers the input (all at once, half of each request, one byte at
+    a time, last data together with `io.EOF`), `NewDecoder(r).Decode` returns what `Unmarshal`
+    returns.  It holds for every type without byte strings (all of them read with `io.ReadFull`):
+    integers, big integers, u128, bool, fixed byte arrays, options, results, enums, arrays, slices,
+    structs of these. -/
+theorem C12_reader_independent_partial (k : RKind) (n : Nat) (t : Ty) (h : noByteString t = true) :
+    ∀ bs, decode (codecR k n) t bs = decode C11.codec t bs := by
+  induction t with
+  | prim p =>
+    intro bs
+    cases p <;> simp [noByteString] at h <;> rfl
+  | unit => intro bs; rfl
+  | pair a b iha ihb =>
+    simp only [noByteString, Bool.and_eq_true] at h
+    intro bs
+    simp only [decode, iha h.1 bs]
+    cases decode C11.codec a bs with
+    | none => rfl
+    | some p => obtain ⟨x, r⟩ := p; simp only [ihb h.2 r]
+  | option t ih =>
+    simp only [noByteString] at h
+    intro bs
+    cases bs with
+    | nil => rfl
+    | cons tag r => simp only [decode, ih h r]
+  | result a b iha ihb =>
+    simp only [noByteString, Bool.and_eq_true] at h
+    intro bs
+    cases bs with
+    | nil => rfl
+    | cons tag r => simp only [decode, iha h.1 r, ihb h.2 r]
+  | array m t ih =>
+    simp only [noByteString] at h
+    intro bs
+    simp only [decode, decN_congr _ _ (ih h)]
+  | seq t ih =>
+    simp only [noByteString] at h
+    intro bs
+    simp only [decode]
+    show (match C11.decLen bs with
+      | none => none
+      | some (m, r) => _) = (match C11.decLen bs with
+      | none => none
+      | some (m, r) => _)
+    cases C11.decLen bs with
+    | none => rfl
+    | some q => obtain ⟨m, r⟩ := q; simp only [decN_congr _ _ (ih h)]
+  | enumNil => intro bs; rfl
+  | enumCons i t rest iht ihr =>
+    simp only [noByteString, Bool.and_eq_true] at h
+    intro bs
+    cases bs with
+    | nil => rfl
+    | cons tag r => simp only [decode, iht h.1 r, ihr h.2 (tag :: r)]
+
+/-- … in particular a fixed byte array `[N]byte` decodes alike through every reader, and a
+    truncated one fails through every reader -/
+theorem C12_reader_independent_unmarshal (k : RKind) (t : Ty) (h : noByteString t = true)
+    (input : Bytes) : decodeR k t input = C11.unmarshal t input :=
+  C12_reader_independent_partial k input.length t h input
+
+/-- the excluded region is real: the complete, canonical `08 01 02` (the byte string `01 02`)
+    decodes through `iotest.HalfReader` to `01 00` with `02` left over, and fails through
+    `iotest.DataErrReader`; a fixed byte array does not -/
+theorem C12_reader_independent_counterexample :
+    (decodeR .buffer (.prim .bytes) [0x08, 1, 2]).map (fun p => encode Spec.codec (.prim .bytes) p.1 ++ p.2)
+      = some [0x08, 1, 2] ∧
+    (decodeR .half (.prim .bytes) [0x08, 1, 2]).map (fun p => encode Spec.codec (.prim .bytes) p.1 ++ p.2)
+      = some [0x08, 1, 0, 2] ∧
+    (decodeR .dataErr (.prim .bytes) [0x08, 1, 2]).isNone = true ∧
+    (decodeR .half (.array 2 (.prim .u8)) [1, 2]).isSome = true ∧
+    (decodeR .one (.array 2 (.prim .u8)) [1]).isNone = true := by
+  refine ⟨by decide, by decide, by decide, by decide, by decide⟩
+
 end Gossamer.C12
